@@ -11,7 +11,7 @@ from checks import _c02_helpers as H
 
 ID = "C02"
 LEVEL = "exploration"
-RUNS = {"quick": 3000, "thorough": 150000}
+RUNS = {"quick": 2200, "thorough": 120000}
 WALL_CAP = {"quick": 120, "thorough": 3000}
 RULE = ("one case = a generated handler program (0-5 handlers per queue event q0..q3 of kinds sync / waiter "
         "(cleared by timer, immediately, by another event's handler, by a nested event's callback) / coroutine; "
@@ -27,15 +27,20 @@ PROBES = ["immediate_clear", "timed_clear", "clear_by_event", "clear_by_nested_c
           "mode_start_on_queue", "mode_wait_queue_held", "mode_start_noop_active", "mode_starting_has_handlers",
           "mode_starting_waiter", "relay_player_wait", "mr_relay_wait", "mr_relay_cleared_by_stop", "qep_post",
           "relay_chain3", "relay_empty_kwargs", "bool_false_midway", "bool_no_false",
+          "game_queue_event_held", "game_ball_ending_held", "game_mode_starting_held", "game_mode_stopping_held",
+          "game_holds_released_together", "game_ball_ended", "game_ended", "game_mode_stopped_by_ball_end",
           "relative_priority_handler", "coro_ends_cancelled", "coro_task_cancelled",
           "coro_awaited_future_cancelled", "rewait_same_queue", "forwarded_queue_nested", "shared_queue_second_wait", "relay_reg_collides_posted",
           "relay_ret_collides_reg", "handler_removed_in_flight", "all_handlers_removed_after_post", "late_after_stall"]
 REAL = ["mpf.core.events.EventManager (post_queue/_async, post_relay/_async, post_boolean, add_async_handler, "
         "QueuedEvent)", "mpf.core.mode.Mode start/stop incl. use_wait_queue", "mpf.core.mode_controller",
         "mpf.devices.logic_blocks.Counter (mode device registering on mode_<n>_starting)",
-        "mpf.config_players.queue_relay_player", "mpf.config_players.queue_event_player", "MachineController boot"]
+        "mpf.config_players.queue_relay_player", "mpf.config_players.queue_event_player", "MachineController boot",
+        "game family: mpf.modes.game.code.game.Game (ball/game lifecycle), ModeController ball_ending/ball_starting"]
 STUBS = ["event loop (SimLoop: virtual time, stalls, tie order)", "clock (SimClock)", "virtual hardware platform",
-         "in-memory data manager"]
+         "in-memory data manager", "game family: playfield.add_ball replaced by a counter (no ball devices), "
+         "ball_controller.num_balls_known set by the harness, completion callbacks of MPF's own queue events "
+         "observed through a pass-through wrapper around EventManager._post"]
 ASSUMPTIONS = ["call_soon FIFO order is kept (asyncio guarantees it)",
                "bounded liveness: a dispatcher that may proceed (no wait outstanding) does so within the simulated "
                "instant that enabled it (post, handler return, clear); at the end of a run every wait has been "
@@ -43,7 +48,10 @@ ASSUMPTIONS = ["call_soon FIFO order is kept (asyncio guarantees it)",
                "time does not advance inside one loop iteration; lateness only through injected stalls",
                "handlers of equal priority may run in either order (statement only fixes priority order)",
                "a handler removed while an event is in flight may or may not run for that event",
-               "no game is running (modes under test are game_mode: false)"]
+               "bus family: no game is running (modes under test are game_mode: false); game family: device-less "
+               "game, MPF-internal holders of its queue events (mode controller, game) are not visible, so the "
+               "same-instant liveness rule is only applied to mode_<m>_starting/_stopping there and the end-of-run "
+               "rule (everything posted has completed at quiescence) to all"]
 STATE_ABSTRACTION = "(in-flight instances, outstanding waits, states of the 4 modes, kind of last model event)"
 TECHNIQUE = "deterministic simulation, randomized handler programs + histories, history-checking oracle"
 
@@ -165,9 +173,72 @@ def _gen_queue_handler(ch, hid, ev, feat, only_clear=False):
     return h
 
 
+GEV = H.GEV
+GPRIOS = [-100, -10, 10, 50, 100, 300]     # the mode controller's ball_ending/ball_starting handlers have priority 0
+
+
+def _when(ch, op):
+    w = ch.weighted("when", [("rel", 5), ("same", 2), ("deadline", 3)])
+    if w == "rel":
+        op["when"] = ["rel", ch.pick("dt", [0.0, 0.0, 0.001, 0.01, 0.05, 0.1, 0.1, 0.3, 0.6])]
+    elif w == "same":
+        op["when"] = ["same"]
+    else:
+        op["when"] = ["deadline", ch.choice("dl_idx", 4), ch.pick("dl_delta", [0.0, 0.0, -0.001, 0.001])]
+    return op
+
+
+def plan_game(ch, knobs):
+    """Game family: MPF's own queue events (ball_starting/ball_ending/game_ending/mode_<m>_starting/_stopping/
+    mode_game_stopping) of a running game with game modes, held by workload handlers and released at tape-chosen
+    instants (often several in the same instant), while balls end, modes start/stop and the game ends."""
+    feat = {"modes": False, "msh": False, "nested": False, "relay": False, "bool": False, "rm": False, "qep": False,
+            "mr": False, "fwd": False, "coro": ch.flag("f.coro", 0.5), "rewait": ch.flag("f.rewait", 0.4),
+            "relprio": ch.flag("f.relprio", 0.4), "cancel": ch.flag("f.cancel", 0.5)}
+    handlers = []
+    hid = 0
+    for ev in GEV:
+        heavy = ev in ("ball_ending",) or ev.endswith("_starting")
+        n = ch.weighted("nh_g", [(1, 4), (0, 2), (2, 2)] if heavy else [(0, 4), (1, 3), (2, 1)])
+        for _ in range(n):
+            hid += 1
+            h = _gen_queue_handler(ch, hid, ev, feat, only_clear=True)
+            h["prio"] = ch.pick("gprio", GPRIOS) + ch.pick("prio_off", [0, 0, 0, 1, 3, 5, 6])
+            if h["kind"] == "wait" and h["clear"][0] == "event" and h["clear"][2] >= 0:
+                # holds which are released together with others: longer delays so that several holds pile up
+                h["clear"][2] = ch.pick("g_d_ev", [0.1, 0.25, 0.5, 0.5, 1.0])
+            handlers.append(h)
+    if ch.flag("g_together", 0.5):
+        # holds on the mode starts and a hold in front of the mode controller's ball_ending handler which are all
+        # released by the same event (think of players waiting for the same "animation finished"): the dispatchers
+        # of mode_<m>_starting and of ball_ending resume in the same instant, in the order of the releases
+        pool = ch.pick("g_pool", CEV)
+        d = ch.pick("g_d_tog", [0.25, 0.5, 0.5, 1.0])
+        for ev in ["mode_%s_starting" % m for m in H.GMODES] + ["ball_ending"]:
+            if ev != "ball_ending" and not ch.flag("g_tog_m", 0.7):
+                continue
+            hid += 1
+            handlers.append({"hid": hid, "ev": ev, "acts": [], "kind": "wait", "clear": ["event", pool, d],
+                             "prio": ch.pick("g_tog_prio", [100, 50, 300]) + ch.pick("prio_off", [0, 0, 0, 1, 3, 5, 6])})
+    ops = []
+    for _ in range(5 + ch.choice("nops", 12)):
+        k = ch.weighted("gop", [("gstart", 6), ("drain", 4), ("end_ball", 2), ("gstop", 2), ("postc", 3), ("clr", 1),
+                                ("end_game", 0.7), ("start_game", 1)])
+        op = {"op": k}
+        if k in ("gstart", "gstop"):
+            op["m"] = ch.pick("op_gm", ["gm1", "gm2", "gm3"])
+        elif k in ("postc", "clr"):
+            op["c"] = ch.pick("op_c", CEV)
+        ops.append(_when(ch, op))
+    return {"fam": "game", "knobs": knobs, "feat": feat, "handlers": handlers, "ops": ops,
+            "drv": {"bpg": ch.pick("bpg", [3, 1, 2])}}
+
+
 def plan(ch, tier):
     knobs = draw_knobs(ch)
     knobs["perm_clears"] = ch.flag("knob.perm_clears", 0.5)
+    if ch.weighted("fam", [("bus", 7), ("game", 3)]) == "game":
+        return plan_game(ch, knobs)
     feat = {"modes": ch.flag("f.modes", 0.7), "msh": ch.flag("f.msh", 0.5), "nested": ch.flag("f.nested", 0.6),
             "coro": ch.flag("f.coro", 0.6), "relay": ch.flag("f.relay", 0.5), "bool": ch.flag("f.bool", 0.5),
             "rm": ch.flag("f.rm", 0.3), "qep": ch.flag("f.qep", 0.25), "mr": ch.flag("f.mr", 0.4),
@@ -316,6 +387,7 @@ def shrink(plan):
 def warm():
     from sim.machine import preload
     preload("c02")
+    preload("c02g")
 
 
 def on_crash(ctx, crash):
@@ -329,9 +401,14 @@ def on_crash(ctx, crash):
 
 
 def execute(ctx, plan):
-    sim = ctx.new_sim("c02")
-    sim.boot()
-    w = H.World(ctx, sim, plan)
+    if plan.get("fam") == "game":
+        sim = ctx.new_sim("c02g", patches={"game": {"balls_per_game": plan["drv"]["bpg"]}})
+        sim.boot()
+        w = H.GameWorld(ctx, sim, plan)
+    else:
+        sim = ctx.new_sim("c02")
+        sim.boot()
+        w = H.World(ctx, sim, plan)
     w.setup()
     w.run_ops()
     w.drain()
